@@ -73,18 +73,33 @@ class CaseTimeout(Exception):
     pass
 
 
+class CaseStarved(Exception):
+    """wall-clock budget exhausted although the case used less CPU time than its budget: the machine, not the code"""
+
+
 def _alarm(signum, frame):
     raise CaseTimeout()
 
 
+def _alarm_wall(signum, frame):
+    raise CaseStarved()
+
+
 def _run_one(prop: Prop, case):
-    signal.signal(signal.SIGALRM, _alarm)
-    # repeating timer: a single CaseTimeout can be swallowed by an `except` inside pandas while a loop keeps spinning
-    signal.setitimer(signal.ITIMER_REAL, float(prop.case_timeout), 2.0)
+    # The budget of a case is CPU time of this process (ITIMER_PROF): a hang in the implementation spins and uses it up,
+    # a machine oversubscribed by other checks does not. A generous wall-clock limit (10 x, at least 10 min) catches a
+    # case that blocks without computing; that is reported as an infrastructure error (exit 2), never as a violation.
+    # Repeating timers: a single exception can be swallowed by an `except` inside pandas while a loop keeps spinning.
+    signal.signal(signal.SIGPROF, _alarm)
+    signal.signal(signal.SIGALRM, _alarm_wall)
+    signal.setitimer(signal.ITIMER_PROF, float(prop.case_timeout), 2.0)
+    signal.setitimer(signal.ITIMER_REAL, max(10.0 * float(prop.case_timeout), 600.0), 5.0)
     try:
         return prop.run_impl(case)
     except CaseTimeout:
         return {"__timeout__": True}
+    except CaseStarved:
+        return {"__infra__": f"case exceeded its wall-clock limit using less than {prop.case_timeout}s of CPU time (machine load)"}
     except BaseException as e:  # noqa: BLE001 - an escaping exception is itself an observation
         if isinstance(e, (KeyboardInterrupt, SystemExit)):
             raise
@@ -92,6 +107,7 @@ def _run_one(prop: Prop, case):
             return {"__infra__": f"{type(e).__name__}: {e}"}
         return {"__crash__": f"{type(e).__name__}: {e}", "__trace__": traceback.format_exc()[-1500:]}
     finally:
+        signal.setitimer(signal.ITIMER_PROF, 0)
         signal.setitimer(signal.ITIMER_REAL, 0)
 
 
